@@ -4,6 +4,7 @@ from itertools import takewhile
 from typing import Any, Dict, MutableMapping, Optional, Set, Type, Union
 
 import h5py
+import numpy
 import wrapt
 
 from ..util.types import H5DatasetLike, H5FileLike, H5GroupLike, H5NodeLike, OpenMode
@@ -327,6 +328,8 @@ def _wrap_method(method: str, is_read_only_method: bool = False):
 
 # classes of h5py reference-like types (we don't support that)
 _H5_REF_TYPES = [h5py.HardLink, h5py.SoftLink, h5py.ExternalLink, h5py.h5r.Reference]
+# stored as named datatype (a node that is neither group nor dataset):
+_H5_TYPE_TYPES = [numpy.dtype, h5py.Datatype]
 
 
 class MetadorGroup(MetadorNode):
@@ -355,6 +358,8 @@ class MetadorGroup(MetadorNode):
     def __setitem__(self, name, value):
         if any(map(lambda x: isinstance(value, x), _H5_REF_TYPES)):
             raise ValueError(f"Unsupported reference type: {type(value).__name__}")
+        if any(map(lambda x: isinstance(value, x), _H5_TYPE_TYPES)):
+            raise ValueError(f"Unsupported value type: {type(value).__name__}")
 
         return _wrap_method("__setitem__")(self, name, value)
 
